@@ -376,7 +376,7 @@ pub fn k_seek_f8_c4<N: Nd>(nd: &mut N) {
 
 harnesses! {
     @reg registry3;
-    /// @meta props=C05,C04,C06:t tier=quick kind=K timeout=1500 mem=12 unwind=10 unwindset="seq_io::fill_buf:8" bounds="fasta::Reader::seek (source delivering symbolic chunks) from every state, every window (capacity 4, every file offset) of every file <= 8 bytes to every target byte 0..=n (in-buffer shortcut and real seek + refill)"
+    /// @meta props=C05,C04,C06:t tier=quick kind=K stage2=pub timeout=1500 mem=12 unwind=10 unwindset="seq_io::fill_buf:8" bounds="fasta::Reader::seek (source delivering symbolic chunks) from every state, every window (capacity 4, every file offset) of every file <= 8 bytes to every target byte 0..=n (in-buffer shortcut and real seek + refill)"
     fak_seek_f8_c4 => k_seek_f8_c4;
 }
 
